@@ -58,10 +58,12 @@ def expected(c):
                     filled.append([prev, s, ""])
                 filled.append([s, e, l])
                 prev = e
-            if prev < hi or not es:
+            if prev < hi:            # an empty tier: one blank over the span (a span of length zero holds no interval)
                 filled.append([prev, hi, ""])
             es = filled
-        tiers.append({"k": t["k"], "name": t["name"], "lo": t["lo"], "hi": t["hi"], "es": es})
+        # a minTimestamp / maxTimestamp override is the span of every tier too (A27)
+        tiers.append({"k": t["k"], "name": t["name"], "lo": t["lo"] if c.get("min") is None else c["min"],
+                      "hi": t["hi"] if c.get("max") is None else c["max"], "es": es})
     return {"lo": lo, "hi": hi, "tiers": tiers}
 
 
